@@ -117,6 +117,35 @@ CLAIMED.update({
     ),
 })
 
+CLAIMED.update({
+    "C16": (
+        "units-of-measure (homogeneity degree) typing of every arithmetic node by abstract interpretation",
+        "other",
+        "Every arithmetic node reachable from rate/predict_* is typed with its degree in the skill unit; posteriors have degree 1, predictions degree 0, no node is ill-typed; in the two "
+        "Thurstone-Mosteller models the kappa-derived margins handed to the correction functions are the only exempted values (the statement's exemption). By parametricity this is the scale clause "
+        "for every game and factor. The shift clause is not yet decided by this check (see not_decided in the evidence).",
+        "Trusted: osv/ai degree domain (DESIGN A.6). Assumes the gamma callback is dimensionless. Rounding differences are not bounded.",
+        "DESIGN.md §5 C16",
+    ),
+    "C09": (
+        "role-swap symmetry on value-numbered terms (polynomial normal form with the CDF complement identity) + order-tag alignment + interval analysis",
+        "other",
+        "The pair term for (a, b) plus the role-swapped term is identically 1 (antisymmetric margin, symmetric scale) in both the two-team and the n-team code path; the two-team form returns p and 1-p; "
+        "entry k of the n-team result sums exactly the pair terms with teams[k] first; the scale is positive. Necessary structure of 'sums to 1 / permutes with the teams / one half for identical teams'; "
+        "range for n > 2 and monotonicity are not decided.",
+        "Trusted: osv/ai, osv/poly.py, phi_major in the CDF role, itertools.permutations order and the k-chunk idiom.",
+        "DESIGN.md §5 C09",
+    ),
+    "C11": (
+        "intra-class sibling agreement of value-numbered terms (predict_rank vs predict_draw) in polynomial normal form",
+        "other",
+        "predict_rank's CDF argument equals one of predict_draw's two arguments and the negation of the other (same margin and scale), predict_draw's divisor is exactly twice predict_rank's, and the result is one "
+        "(int rank, probability) pair per team in input order: the structural content of 'rank probabilities + draw = 1'. The competition-ranking logic is not decided.",
+        "Trusted: osv/ai, osv/poly.py, pair-chunking axiom, _rank_data positional alignment.",
+        "DESIGN.md §5 C11",
+    ),
+})
+
 NOT_APPLICABLE = {
     "C01": "numeric equality (1e-9) with published closed forms over a continuous input box: no sound static "
     "argument in reach; its structural necessary conditions are decided under C02/C03/C05/C06/C07/C16/C19",
